@@ -447,7 +447,7 @@ def view_term(ctx, cname, mname):
         return any(getattr(k, 'name', k) == b for k in (ca.mro or [])[1:]) or b in [x if isinstance(x, str) else x.name for x in (ca.mro or [])]
     seqalg.LATTICE['subclass'] = sub
     try:
-        got = seqalg.produced(fd.node)
+        got = seqalg.produced(fd.node, {k: v.node for k, v in repo.modules['data'].functions.items()})
         want = seqalg.produced_by_source(VIEW_SPECS[(cname, mname)])
     finally:
         seqalg.LATTICE['subclass'] = None
